@@ -95,6 +95,21 @@ CORPUS = [
 ]
 
 
+def extra_builds(ctx):
+    """the other configuration of the crate: feature `chrono` off (Timestamp keeps the raw text only)"""
+    import os
+    import vlib
+    target = vlib.TARGET + "_nochrono"
+    ctx.nochrono_bin = None
+    n_before = len(ctx.broken)
+    if vlib.step_harness(ctx, features="", target=target):
+        ctx.nochrono_bin = os.path.join(vlib.CACHE, target, "debug", "verif_harness")
+    else:
+        # not a broken tie of the default configuration: report as a note only
+        del ctx.broken[n_before:]
+        ctx.notes.append("the harness did not build with feature chrono off; only the default configuration was exercised")
+
+
 def gen_fields(rng, ident):
     params, keys = COMMANDS[ident]
     base = list(GOOD.get(ident, []))
@@ -216,6 +231,15 @@ def run(ctx, only=None):
             fails.append(Failure(c, f"converting the reply {unhexs(toks[3])!r} into the typed response of {toks[1]} {toks[2]} panicked "
                                     f"(expected a value or a typed-response error)"))
     fails.sort(key=lambda f: len(f.case))      # report the shortest failing input first
+    nochrono = getattr(ctx, "nochrono_bin", None)
+    if nochrono:
+        for c, out in zip(cases, ctx.run_impl(cases, harness_bin=nochrono)):
+            if "PANIC" in out and not any(f.case == c for f in fails):
+                toks = c.split(" ")
+                fails.append(Failure(c, f"(feature chrono off) converting the reply {unhexs(toks[3])!r} into the typed response of {toks[1]} "
+                                        f"{toks[2]} panicked (expected a value or a typed-response error)"))
+        ctx.notes.append("every case was also run against the harness built with feature chrono off (no-PANIC oracle only)")
+        fails.sort(key=lambda f: len(f.case))
     if model is not None:
         for c, out in zip(cases, model):
             if "PANIC" in out and not any(f.case == c for f in fails):
